@@ -250,6 +250,17 @@ def check(run) -> None:
         fw_grid = _stratified(gen["grid"], 2, run.seed) if quick else gen["grid"]
         fw_walks = walks[:22] if quick else walks[:300]
         fw_leg(run, fw_grid + fw_walks, "behaviours")
+        # long texts and long tick histories (hand-written behaviours in the generator's format, judged by the same trace
+        # specification): a marquee that is many times the row width runs through and stops, a long typewriter line completes
+        longs = [{"geo": [{"cols": 16, "rows": 2}], "deltas": [3] * 300, "t0": 1, "pat": "long",
+                  "anims": [{"d": 1, "row": 0, "n": 240, "at": 0, "style": "scroll", "speed": 2, "loop": False, "via": "main"}]},
+                 {"geo": [{"cols": 20, "rows": 4}], "deltas": [2] * 290, "t0": 7, "pat": "long",
+                  "anims": [{"d": 1, "row": 1, "n": 262, "at": 0, "style": "typewriter", "speed": 1, "loop": False, "via": "main"},
+                            {"d": 1, "row": 3, "n": 236, "at": 0, "style": "scroll", "speed": 1, "loop": False, "via": "main"}]}]
+        tl, ml = host_traces(longs, "long")
+        vl = pool.submit(_validate, tl, "host long behaviours")
+        fw_leg(run, longs, "long")
+        host_verdicts(run, tl, ml, *vl.result())
         probes = sorted(gen["probe"], key=lambda h: json.dumps(h, sort_keys=True))
         if quick:
             rnd.shuffle(probes)
